@@ -314,6 +314,42 @@ def noop_case(case):
     return r
 
 
+def constarr_case(case):
+    """'The caller's ... constants are never modified': an array handed over inside the constants dict, returned by the right-hand side BY REFERENCE (y' = rate):
+    whatever the library does with the value of the right-hand side it must not write into it."""
+    de, I = lc._imports()
+    r = Res()
+    name = case["method"]
+    dtype = lc.DT[case["dtype"]]
+    rate0 = np.array([0.5, -0.25], dtype=dtype)
+    consts = dict(rate=rate0.copy(), k=1.0)
+
+    def f(t, y, rate=None, **kw):
+        return rate                      # the caller's own array
+    a = de.OdeSystem(f, y0=np.array([0.0, 1.0], dtype=dtype), t=(dtype(0.0), dtype(case["tf"])), dt=dtype(0.125), rtol=dtype(1e-6), atol=dtype(1e-6), dense_output=bool(case["dense"]), constants=consts)
+    a.method = method_of(name)
+    if case.get("kick"):
+        a.set_kick_vars(np.array([False, True]))
+    r.n = 1
+    try:
+        a.integrate(dtype(0.5 * case["tf"]), callback=driver.Budget(20000))
+        a.integrate(callback=driver.Budget(20000))
+    except de.exception_types.FailedIntegration:
+        r.add("raised")
+        return r
+    if not np.array_equal(consts["rate"], rate0) or not np.array_equal(np.asarray(a.constants["rate"]), rate0):
+        r.v("C13/caller-data-modified/%s" % name, "the caller's initial state array and constants are never modified", case,
+            observed=dict(rate=np.asarray(consts["rate"], dtype=float)), expected=dict(rate=rate0.astype(float)))
+    want = np.array([0.0, 1.0], dtype=LD_) + LD_(case["tf"]) * rate0.astype(LD_)
+    if float(np.max(np.abs(np.asarray(a.y[-1], dtype=LD_) - want))) > 1e-5:
+        r.v("C13/constant-rate-result/%s" % name, "integrating y' = rate gives y0 + T rate", case, observed=np.asarray(a.y[-1], dtype=float), expected=want.astype(float))
+    r.out(("constarr", name, case["dtype"], case["dense"]))
+    return r
+
+
+LD_ = np.longdouble
+
+
 def run(ctx):
     depth = 3 if ctx.quick else 4
     ctx.rule = ("E1 breadth-first search to depth %d over {integrate(), integrate(1.0), integrate(0.5), dt=, rtol=, atol=, method= (2 choices), tf=, set_kick_vars, "
@@ -356,6 +392,10 @@ def run(ctx):
                             for dense in ((False,) if ctx.quick else (False, True)):
                                 ncases.append(dict(noop=True, method=m, dtype=dn, dense=dense, t0=t0, t1=t1, t2=t2, dt0=dt0, redundant=red))
         grid.pmap(noop_case, ncases, ctx, section="noop", horizon=600)
+        ccases = [dict(constarr=True, method=m, dtype=dn, dense=d, tf=tf, kick=(m in lc.SPLITTING))
+                  for m in lc.FIXED_EXPLICIT[:2] + ["RK4Solver"] + lc.SPLITTING + ["RK45CKSolver", "DOPRI45", "ImplicitMidpoint", "RadauIIA5", "RICH:RK4Solver:3", "RICH:ABAs5o6HSolver:2"]
+                  for dn in ("float64", "float32") for d in (False, True) for tf in (2.0, -2.0)]
+        grid.pmap(constarr_case, ccases, ctx, section="noop", horizon=600)
 
 
 def replay(case):
@@ -365,6 +405,8 @@ def replay(case):
         return interleave_case(case)
     if case.get("noop"):
         return noop_case({k: v for k, v in case.items() if k != "call"})
+    if case.get("constarr"):
+        return constarr_case(case)
     cfg = {k: v for k, v in case.items() if k not in ("hist", "_depth")}
     hist = tuple(tuple(o) if not isinstance(o[-1], list) else (o[0], tuple(o[1])) for o in case["hist"])
     return step(cfg, hist)
